@@ -173,3 +173,199 @@ def execution(prog, events, info=None):
     if not events or events[-1].get("e") != "Final":
         ex.append({"e": "Crash", "what": "run did not reach its end", "info": (info or {}).get("stderr", "")[-200:]})
     return ex
+
+
+# ---------------------------------------------------------------------------------------------- model checking
+def small_programs(quick):
+    """Programs small enough for exhaustive model checking of spec/PTG/Exec.tla:
+    (name, AST, AgainMax, StartupIter, StartupChunk)."""
+    J = jdfgen
+    out = []
+    b = J.Builder(N=2, M=2); J.t_bcast(b, "P", "Q", "asc", "tri_lo", gather="R", raw=True)
+    out.append(("bcast_gather_raw", b.build(), 0 if quick else 1, 64, 256))
+    b = J.Builder(N=3); J.t_chain(b, "CH", "desc")
+    out.append(("chain_desc_again", b.build(), 1 if quick else 2, 64, 256))
+    b = J.Builder(N=2); J.t_mask2(b, "desc")
+    out.append(("mask2_desc", b.build(), 0, 64, 256))
+    b = J.Builder(N=3 if quick else 4); J.t_indep(b, "T", ["step2"], flowkind="new"); J.t_indep(b, "U", ["desc"], flowkind="rwread")
+    out.append(("startup_chunk1", b.build(), 0, 1, 1))
+    b = J.Builder(N=4 if quick else 6); J.t_indep(b, "T", ["asc"])
+    out.append(("startup_chunk2", b.build(), 0, 2, 2))
+    if not quick:
+        b = J.Builder(N=3, M=2); J.t_bcast(b, "P", "Q", "desc", "rect_desc", gather="R", raw=False)
+        out.append(("bcast_desc", b.build(), 0, 64, 256))
+        b = J.Builder(N=4); J.t_split(b, False)
+        out.append(("split", b.build(), 1, 64, 256))
+        b = J.Builder(N=3); J.t_pipe(b, "desc")
+        out.append(("pipe_again", b.build(), 1, 64, 256))
+    return out
+
+
+EXEC_INVARIANTS = ("RanOnce", "OnlySpace", "StartAfterPreds", "NoRestart", "StartupOnce", "TermOK")
+
+
+def model_checks(ctx, d):
+    """TLC checks Exec.tla exhaustively on the small programs (all interleavings of the startup generators and the
+    task life cycles) and shows that the model is sensitive: with the `<=`-only loops a descending range deadlocks.
+    Vacuity: deadlock checking is on and the only terminal action needs term = TRUE, so every maximal behaviour ran
+    every task (TermOK); the search depth is checked as a second guard."""
+    from lib import mcgen, tlc
+    res = []
+    for name, p, again, it, ch in small_programs(ctx.quick):
+        interp, _ = jdfgen.validate(p)
+        mod, cfg = mcgen.write_mc(d, name, "Exec", {"Prog": p, "AgainMax": again, "StartupIter": it, "StartupChunk": ch,
+                                                   "LoopLE": False}, invariants=EXEC_INVARIANTS, deadlock=True)
+        r = ctx.tlc_check(d, mod, cfg, workers=4, timeout=1500, heap="4g")
+        n = len(interp.order)
+        if r.depth < 2 * n + 1:
+            raise tlc.TLCError("vacuity guard: Exec on %s explored depth %d < %d" % (name, r.depth, 2 * n + 1))
+        res.append({"program": name, "tasks": n, "again_max": again, "iter": it, "chunk": ch, "states": r.distinct})
+    name, p, again, it, ch = small_programs(True)[1]
+    mod, cfg = mcgen.write_mc(d, name + "_le", "Exec", {"Prog": p, "AgainMax": 0, "StartupIter": it, "StartupChunk": ch,
+                                                       "LoopLE": True}, invariants=EXEC_INVARIANTS, deadlock=True)
+    r = ctx.tlc_check(d, mod, cfg, expect_ok=False, workers=2, timeout=600, heap="2g")
+    if r.violated != "deadlock":
+        raise tlc.TLCError("sensitivity self-test: Exec with `<=`-only loops must deadlock on a descending chain, got %r" % r.violated)
+    ctx.exhaustive = True
+    ctx.extra["exec_models"] = res
+    return res
+
+
+# ---------------------------------------------------------------------------------------------- campaigns
+def _ex_meta(entry, cfg, run):
+    m = {"program": entry["prog"]["name"], "tags": entry["tags"], "config": {k: v for k, v in cfg.items()}}
+    if run.get("again"):
+        m["again"] = list(run["again"])
+    return m
+
+
+def campaign(ctx, entries, configs, trace_cfg, tag, again=None, window_ms=1500, jobs=4, backends=None,
+             known_key="descending-range", what="execution"):
+    """Run every program of `entries` under every configuration (one process per configuration), confirm hangs with
+    a 10x window, validate every execution against ExecTrace (trace_cfg) and report violations.
+    again: None or function(entry, cfg_index) -> (seed, max)."""
+    import concurrent.futures
+    known = ctx.known_finding(known_key) is not None
+    if known:
+        # the finding is listed: keep two representatives to show it still reproduces, skip the rest of the class
+        keep, ndesc = [], 0
+        for e in entries:
+            if e["desc"]:
+                ndesc += 1
+                if ndesc > 2:
+                    continue
+            keep.append(e)
+        ctx.extra["skipped_known_class_programs"] = len(entries) - len(keep)
+        entries = keep
+    exe = build_driver(ctx, [e["prog"] for e in entries], tag, backends=backends)
+    executions = []          # (meta, events)
+    hung = {}                # program name -> (meta, events)
+    excluded = set()
+
+    def runs_for(ents, ci):
+        rs = []
+        for e in ents:
+            r = {"prog": e["prog"]}
+            if again is not None:
+                a = again(e, ci)
+                if a:
+                    r["again"] = a
+            rs.append(r)
+        return rs
+
+    def one_config(ci, ents, win, t):
+        cfg = configs[ci]
+        rs = runs_for(ents, ci)
+        per, info = run_config(ctx, exe, rs, cfg, "%s-c%d-%s" % (tag, ci, t), window_ms=win,
+                               timeout=120 + 30 * win // 1000)
+        return ci, ents, rs, per, info
+
+    def absorb(ci, ents, rs, per, info, confirm_list):
+        for e, r, evs in zip(ents, rs, per):
+            ex = execution(e["prog"], evs, info)
+            meta = _ex_meta(e, configs[ci], r)
+            if any(x.get("e") == "Timeout" for x in ex):
+                confirm_list.append((ci, e, meta, ex))
+            else:
+                executions.append((meta, ex))
+
+    # phase 1: first configuration alone (fail fast on programs that never terminate)
+    pend = []
+    absorb(*one_config(0, entries, window_ms, "p1"), confirm_list=pend)
+    phases = [(0, pend)]
+    if pend:
+        ents = [e for _, e, _, _ in pend]
+        again_list = []
+        ci, ents2, rs, per, info = one_config(0, ents, 10 * window_ms, "p1c")
+        absorb(ci, ents2, rs, per, info, confirm_list=again_list)
+        for _, e, meta, ex in again_list:
+            hung[e["prog"]["name"]] = (meta, ex)
+            excluded.add(e["prog"]["name"])
+        ctx.extra["timeouts_not_confirmed"] = ctx.extra.get("timeouts_not_confirmed", 0) + len(pend) - len(again_list)
+    rest = [e for e in entries if e["prog"]["name"] not in excluded]
+    # phase 2: the other configurations in parallel
+    pend2 = []
+    if len(configs) > 1 and rest:
+        with concurrent.futures.ThreadPoolExecutor(max_workers=jobs) as ex:
+            for res in ex.map(lambda ci: one_config(ci, rest, window_ms, "p2"), range(1, len(configs))):
+                absorb(*res, confirm_list=pend2)
+    if pend2:
+        byc = {}
+        for ci, e, meta, exn in pend2:
+            byc.setdefault(ci, []).append(e)
+        again_list = []
+        with concurrent.futures.ThreadPoolExecutor(max_workers=jobs) as ex:
+            for res in ex.map(lambda ci: one_config(ci, byc[ci], 10 * window_ms, "p2c"), sorted(byc)):
+                absorb(*res, confirm_list=again_list)
+        for ci, e, meta, exn in again_list:
+            hung.setdefault(e["prog"]["name"] + "@%d" % ci, (meta, exn))
+        ctx.extra["timeouts_not_confirmed"] = ctx.extra.get("timeouts_not_confirmed", 0) + len(pend2) - len(again_list)
+
+    # validation
+    executions.sort(key=lambda me: me[0]["program"])
+    ctx.evaluations += len(executions) + len(hung)
+    ctx.extra["executions_run"] = ctx.extra.get("executions_run", 0) + len(executions) + len(hung)
+    ctx.extra["programs"] = ctx.extra.get("programs", 0) + len(entries)
+    ctx.extra["configurations"] = [dict(c) for c in configs]
+    distinct, mult = tracecheck.dedupe([ex for _, ex in executions], strip=("s", "th"))
+    # map distinct index -> first meta
+    first = {}
+    for (meta, ex) in executions:
+        key = json.dumps([{k: v for k, v in ev.items() if k not in ("s", "th")} for ev in ex], sort_keys=True)
+        first.setdefault(key, meta)
+    metas = [first[json.dumps(ex, sort_keys=True)] for ex in distinct]
+    ctx.extra["distinct_executions"] = ctx.extra.get("distinct_executions", 0) + len(distinct)
+    if distinct:
+        big = max(range(len(distinct)), key=lambda i: len(distinct[i]))
+        ctx.sample({"program": metas[big]["program"], "tags": metas[big]["tags"], "config": metas[big]["config"],
+                    "events": distinct[big][1:12], "nevents": len(distinct[big])})
+    fails = ctx.validate("PTG", "ExecTrace", trace_cfg, distinct, batch=400, timeout=1500)
+    ctx.traces = ctx.extra["executions_run"]
+    for f in fails:
+        meta = metas[f.index]
+        ctx.violation("%s of generated PTG program %s %s under %s is rejected by ExecTrace (%s): %s" % (
+            what, meta["program"], meta["tags"], meta["config"], trace_cfg, json.dumps(f.describe())[:900]),
+            {"meta": meta, "events": f.execution, "detail": f.describe(), "trace_cfg": trace_cfg})
+    # hangs: the Timeout event is never enabled; validate (at most two, the others are the same observation)
+    names = sorted(hung)
+    ctx.extra["hangs"] = [{"program": hung[n][0]["program"], "tags": hung[n][0]["tags"], "config": hung[n][0]["config"]}
+                          for n in names]
+    for n in names[:2]:
+        meta, ex = hung[n]
+        entry = [e for e in entries if e["prog"]["name"] == meta["program"]][0]
+        fl = ctx.validate("PTG", "ExecTrace", trace_cfg, [ex], timeout=600)
+        for f in fl:
+            ctx.violation("taskpool of generated PTG program %s %s under %s never terminates (re-confirmed with a 10x "
+                          "no-progress window; %d programs/configurations hang in this run: %s): %s" % (
+                              meta["program"], meta["tags"], meta["config"], len(names),
+                              ", ".join(names[:12]), json.dumps(f.describe())[:600]),
+                          {"meta": meta, "events": ex, "detail": f.describe(), "trace_cfg": trace_cfg,
+                           "jdf": jdfgen.to_jdf(entry["prog"])},
+                          key=(known_key if entry["desc"] else None))
+    return executions, hung
+
+
+def replay_trace(ctx, obj):
+    fails = ctx.validate("PTG", "ExecTrace", obj.get("trace_cfg", "ExecTraceC01.cfg"), [obj["events"]])
+    for f in fails:
+        ctx.violation("recorded execution still rejected: %s" % json.dumps(f.describe())[:900], obj)
